@@ -2,7 +2,7 @@
    unit, list, prod, sumbool, sumor map to OCaml's; numbers and octets stay Coq's inductives.
    No Extract Constant. *)
 Require Import DV.Base.Bytes DV.Base.Utf8 DV.Model.Leaf DV.Spec.Wire DV.Model.Avp
-  DV.Model.Message DV.Model.Dict DV.Model.Build DV.Model.IoWrite DV.Model.Stream DV.Model.Server DV.Model.Client DV.Model.ClientMulti DV.Model.Tls DV.Model.Listener.
+  DV.Model.Message DV.Model.Dict DV.Model.Build DV.Model.IoWrite DV.Model.Stream DV.Model.Server DV.Model.Client DV.Model.ClientMulti DV.Model.ClientObj DV.Model.Tls DV.Model.Listener.
 Require Extraction.
 Require Import ExtrOcamlBasic.
 Extraction Language OCaml.
@@ -21,4 +21,5 @@ Extraction "model.ml"
   serve serve_loop answer_octets whole_frames
   DV.Model.Client.step DV.Model.Client.init DV.Model.Client.run DV.Model.Client.outcomes DV.Model.Client.step_legacy all_okb
   mstep minit mrun cproj mstep_legacy shinit shrun
+  ostep_gen late_ok late_d13 oinit send_outcomes sched_tlsfail sched_overlap sched_failed
   domain_of domain_legacy model_outcome spec_outcome all_cells lstep lstep_legacy lrun linit crun proj.
